@@ -113,34 +113,64 @@ Theorem forward_goes_to_registrant : forall hist to m ok,
      | Some d => if ok then ORelay d m else OHeld d m
      | None => ODrop
      end).
-Proof. intros hist to m ok. apply forward_step. intros k. apply (rrun_get k hist []). Qed.
+Proof.
+  intros hist to m ok. unfold rstep, rrun. apply (forward_step data_key). intros k.
+  apply (rrun_get data_key data_key_eqb k hist []).
+Qed.
 Print Assumptions forward_goes_to_registrant.
 
 (* the same for whole histories, as the boolean the violation search evaluates: every forward of the history has
    exactly one delivery — to the registrant at that moment, of exactly the forwarded message — or none when there is
-   no registrant or the store read fails; keylist updates deliver nothing *)
+   no registrant or the store read fails; keylist updates deliver nothing.  The keys of a history are ANY notations:
+   related ones included (the same bytes under another multicodec, EC points sharing X, the base58 notation of a
+   did:key's bytes, other strings). *)
 Theorem route_exact : forall ops, route_exact_b ops = true.
-Proof. intros ops. apply route_exact_gen. intros k. reflexivity. Qed.
+Proof. intros ops. apply (route_exact_gen data_key data_key_eqb). intros k. reflexivity. Qed.
 Print Assumptions route_exact.
+
+(* what makes it true: the code's dataKey ("route-" + the whole string) sends two notations to the same store key
+   only when they are the same notation ... *)
+Theorem data_key_distinguishes_notations : forall a b, data_key a = data_key b -> a = b.
+Proof. exact data_key_injective. Qed.
+Print Assumptions data_key_distinguishes_notations.
+
+(* ... and the property holds for EVERY store-key function with that property, *)
+Theorem route_exact_for_any_distinguishing_key_function : forall dk,
+  (forall a b, skey_eqb (dk a) (dk b) = rkey_eqb a b) -> forall ops, route_exact_g dk ops = true.
+Proof. intros dk H ops. apply (route_exact_gen dk H). intros k. reflexivity. Qed.
+Print Assumptions route_exact_for_any_distinguishing_key_function.
+
+(* ... while a normalising one — a did:key stored under the base58 of its X bytes, multicodec and Y dropped (what
+   kmsdidkey.GetBase58PubKeyFromDIDKey returns) — is REFUTED: client 2 registers the X25519 did:key over the bytes of
+   client 1's Ed25519 did:key (or the point (x, -y)) and receives client 1's messages.  The code as found does not
+   normalise; the witness stays in corpus/C14 (related-keys.json). *)
+Theorem route_exact_normalising_key_function_refuted :
+  exists ops, route_exact_g data_key_xonly ops = false /\ route_exact_b ops = true.
+Proof.
+  exists [RUpdate 1 [(AAdd, RDidKey 237 1 0)] None true; RUpdate 2 [(AAdd, RDidKey 236 1 0)] None true;
+          RForward (RDidKey 237 1 0) 7 true false].
+  split; vm_compute; reflexivity.
+Qed.
+Print Assumptions route_exact_normalising_key_function_refuted.
 
 (* no operation hands a message to two agents *)
 Theorem at_most_one_delivery : forall s o, (length (deliveries (snd (rstep s o))) <= 1)%nat.
 Proof.
-  intros s o. destruct o as [client ups f ok|to m ok fget]; cbn [rstep].
-  - destruct (apply_updates s client ups f 0). cbn. auto.
-  - destruct fget; [cbn; auto|]. destruct (route_get s to); [destruct ok|]; cbn; auto.
+  intros s o. unfold rstep. destruct o as [client ups f ok|to m ok fget]; cbn [rstep_g].
+  - destruct (apply_updates_g data_key s client ups f 0). cbn. auto.
+  - destruct fget; [cbn; auto|]. destruct (route_get s (data_key to)); [destruct ok|]; cbn; auto.
 Qed.
 Print Assumptions at_most_one_delivery.
 
 (* a keylist update changes the route of the keys it successfully adds and of no other key *)
 Theorem update_touches_only_its_keys : forall s client ups f ok k,
   (forall a, ~ In (a, k) ups) ->
-  route_get (fst (rstep s (RUpdate client ups f ok))) k = route_get s k.
+  route_get (fst (rstep s (RUpdate client ups f ok))) (data_key k) = route_get s (data_key k).
 Proof.
-  intros s client ups f ok k Hno. rewrite rstep_get. cbn [registrant_from].
-  generalize 0%nat. generalize (route_get s k). induction ups as [|[a k'] ups IH]; intros cur i; [reflexivity|].
-  assert (Hk : (k =? k') = false).
-  { destruct (k =? k') eqn:E; [|reflexivity]. apply N.eqb_eq in E. subst. exfalso. apply (Hno a). left; reflexivity. }
+  intros s client ups f ok k Hno. unfold rstep. rewrite (rstep_get data_key data_key_eqb). cbn [registrant_from].
+  generalize 0%nat. generalize (route_get s (data_key k)). induction ups as [|[a k'] ups IH]; intros cur i; [reflexivity|].
+  assert (Hk : rkey_eqb k k' = false).
+  { destruct (rkey_eqb k k') eqn:E; [|reflexivity]. apply rkey_eqb_eq in E. subst. exfalso. apply (Hno a). left; reflexivity. }
   assert (Hno' : forall a0, ~ In (a0, k) ups) by (intros a0 Hi; apply (Hno a0); right; exact Hi).
   destruct a; cbn [reg_updates]; [destruct (fails_put f i); [|rewrite Hk]| |]; apply (IH Hno').
 Qed.
@@ -149,12 +179,12 @@ Print Assumptions update_touches_only_its_keys.
 (* OBSERVATION (not claimed as a violation, DESIGN 7 C14): a later registration of an already registered key by
    another client takes the route over; "remove" does not remove. *)
 Theorem takeover_and_remove_observed :
-  snd (rrun [] [RUpdate 1 [(AAdd, 5)] None true; RForward 5 7 true false;
-                RUpdate 2 [(AAdd, 5)] None true; RForward 5 8 true false;
-                RUpdate 2 [(ARemove, 5)] None true; RForward 5 9 false false])
-  = [OResp 1 [(5, AAdd, RSuccess)] true; ORelay 1 7;
-     OResp 2 [(5, AAdd, RSuccess)] true; ORelay 2 8;
-     OResp 2 [(5, ARemove, RServerError)] true; OHeld 2 9].
+  snd (rrun [] [RUpdate 1 [(AAdd, RB58 5)] None true; RForward (RB58 5) 7 true false;
+                RUpdate 2 [(AAdd, RB58 5)] None true; RForward (RB58 5) 8 true false;
+                RUpdate 2 [(ARemove, RB58 5)] None true; RForward (RB58 5) 9 false false])
+  = [OResp 1 [(RB58 5, AAdd, RSuccess)] true; ORelay 1 7;
+     OResp 2 [(RB58 5, AAdd, RSuccess)] true; ORelay 2 8;
+     OResp 2 [(RB58 5, ARemove, RServerError)] true; OHeld 2 9].
 Proof. vm_compute. reflexivity. Qed.
 Print Assumptions takeover_and_remove_observed.
 
@@ -162,8 +192,8 @@ Print Assumptions takeover_and_remove_observed.
    END TO END: one mediator.  The recipient (client d) registered the key string the profile makes the dispatcher
    address; the mediator unwraps the transport bytes, looks the 'to' up and relays the inner envelope to d, who
    unpacks exactly the original payload. *)
-Definition tref_id (t : tref) : N :=
-  match t with TDidKey k => 3 * k | TB58 k => 3 * k + 1 | TDoc k => 3 * k + 2 end.
+Definition tref_id (t : tref) : rkey :=
+  match t with TDidKey k => RDidKey 0 k 0 | TB58 k => RB58 k | TDoc k => RStr k end.
 
 Theorem routed_end_to_end : forall c pf spar payload sender rcpts r0 hopk rn outer ls hist d med rcp m,
   wrap FFixed c pf spar payload sender rcpts [hopk] rn = Ok (outer, ls) ->
@@ -249,9 +279,16 @@ Example peel_all_nonvacuous_legacy :
 Proof. vm_compute. eexists. split; reflexivity. Qed.
 
 Example route_exact_nonvacuous :
-  let ops := [RUpdate 1 [(AAdd, 5); (AAdd, 6)] (Some 1%nat) true; RUpdate 2 [(AAdd, 6); (AOther, 5)] None false;
-              RForward 5 7 true false; RForward 6 8 false false; RForward 9 1 true false; RForward 5 2 true true] in
-  snd (rrun [] ops) = [OResp 1 [(5, AAdd, RSuccess); (6, AAdd, RServerError)] true; OResp 2 [(6, AAdd, RSuccess)] false;
-                       ORelay 1 7; OHeld 2 8; ODrop; ODrop] /\
-  registrant (firstn 2 ops) 6 = Some 2 /\ registrant (firstn 2 ops) 9 = None.
+  (* related keys: an Ed25519 and an X25519 did:key over the same bytes, their base58 notation, the points (x, y)
+     and (x, -y), a key with a fragment appended: each routed to its own registrant *)
+  let ed := RDidKey 237 1 0 in let x := RDidKey 236 1 0 in let b := RB58 1 in
+  let p := RDidKey 4608 2 2 in let p' := RDidKey 4608 2 3 in
+  let ops := [RUpdate 1 [(AAdd, ed); (AAdd, p)] (Some 1%nat) true; RUpdate 2 [(AAdd, x); (AAdd, p'); (AOther, ed)] None false;
+              RUpdate 3 [(AAdd, b)] None true;
+              RForward ed 7 true false; RForward x 8 false false; RForward b 9 true false; RForward p 1 true false;
+              RForward p' 2 true false; RForward (RStr 1) 3 true false; RForward ed 4 true true] in
+  snd (rrun [] ops) = [OResp 1 [(ed, AAdd, RSuccess); (p, AAdd, RServerError)] true;
+                       OResp 2 [(x, AAdd, RSuccess); (p', AAdd, RSuccess)] false; OResp 3 [(b, AAdd, RSuccess)] true;
+                       ORelay 1 7; OHeld 2 8; ORelay 3 9; ODrop; ORelay 2 2; ODrop; ODrop] /\
+  registrant (firstn 3 ops) x = Some 2 /\ registrant (firstn 3 ops) p = None.
 Proof. vm_compute. repeat split. Qed.
